@@ -219,6 +219,13 @@ class Enc:
                 return None                    # would be read as ONE key;value pair
         return out
 
+    @staticmethod
+    def reads_as_one_pair(t, x):
+        """try_assign_as_kwarg on the WHOLE cell: a two-entry list whose first entry is a string naming a field
+        (after header_name_to_field_name) is ONE key;value pair, whatever the writer meant"""
+        names = {n for (n, _, _) in t[2]}
+        return isinstance(x, list) and len(x) == 2 and isinstance(x[0], str) and t[3].get(x[0], x[0]) in names
+
     def model(self, t, v, prefix):
         fields = t[2]
         r = self.rng.random()
@@ -259,6 +266,8 @@ class Enc:
             x = head + [[n, btext(ft, v[n])] for (n, ft, _) in rest]
             if not rowgen.cell_wf(x) or any(s == "" for s in head):
                 raise NoEncoding
+            if not self.unsafe and self.reads_as_one_pair(t, x):
+                raise NoEncoding               # side condition of NvModelArgs: as_kwarg (whole cell) = None
             self.tags.add("record-mixed")
             return [(prefix, self.join_nested(x))]
         # spread
